@@ -80,6 +80,45 @@ def dict_case(case):
         k0 = next(iter(d2.data)); v0 = d2[k0]; del d2[k0]; d2[k0] = v0
     out['cbor2'] = d2.to_cbor().hex()
     out['rt'] = type(d).from_cbor(d.to_cbor()).to_cbor().hex()
+    # third history: encodes interleaved with in-place operations that reach the underlying dict without item assignment
+    # (the methods DictCBORSerializable forwards to .data): whatever an earlier encode remembered must not survive an edit
+    items = list(d.data.items())
+    d3 = type(d)()
+    half = len(items) // 2
+    for k, v in items[half:]:
+        d3[k] = v
+    d3.to_cbor()
+    for j, (k, v) in enumerate(items[:half]):
+        how = (j + len(items)) % 3
+        if how == 0:
+            d3.update({k: v})
+        elif how == 1:
+            d3.setdefault(k, v)
+        else:
+            d3.data[k] = v
+        d3.to_cbor()
+    if items:
+        k0, v0 = items[-1]
+        d3.pop(k0)
+        d3.to_cbor()
+        d3.update({k0: v0})
+    out['cbor3'] = d3.to_cbor().hex()
+    # fourth history: a larger map shrinks to the content (stale entries must not reappear), then is cleared and refilled
+    d4 = type(d)()
+    for k, v in items:
+        d4[k] = v
+    extra = [(k, v) for k, v in list(d2.data.items())[:1]]
+    d4.to_cbor()
+    for k, v in items[:1]:
+        d4.pop(k)
+        d4.to_cbor()
+        d4[k] = v
+    if len(items) >= 2:
+        k1, v1 = items[1]
+        del d4[k1]
+        d4.to_cbor()
+        d4.setdefault(k1, v1)
+    out['cbor4'] = d4.to_cbor().hex()
     return out
 
 
@@ -129,6 +168,22 @@ def handler(case, payload):
             obs.append(['b', bool(xs[op[1]] < xs[op[2]])]); continue
         elif k == 'count':
             obs.append(['i', xs[op[1]].multi_asset.count(crit(op[2]))]); continue
+        elif k == 'ge':
+            obs.append(['b', bool(xs[op[1]] >= xs[op[2]])]); continue
+        elif k == 'gt':
+            obs.append(['b', bool(xs[op[1]] > xs[op[2]])]); continue
+        elif k == 'male':
+            obs.append(['b', bool(xs[op[1]].multi_asset <= xs[op[2]].multi_asset)]); continue
+        elif k == 'mage':
+            obs.append(['b', bool(xs[op[1]].multi_asset >= xs[op[2]].multi_asset)]); continue
+        elif k in ('ale', 'age', 'aiadd'):
+            ma, mb, p = xs[op[1]].multi_asset, xs[op[3]].multi_asset, ScriptHash(bytes.fromhex(op[2]))
+            if p in ma.data and p in mb.data:
+                if k == 'ale':
+                    obs.append(['b', bool(ma[p] <= mb[p])]); continue
+                if k == 'age':
+                    obs.append(['b', bool(ma[p] >= mb[p])]); continue
+                ma[p] += mb[p]
         else:
             raise ValueError(k)
         obs.append(['n'])
